@@ -193,7 +193,7 @@ ProcessQueue(e) ==
          \* intended design: nothing new is started once termination has begun
          refuse == s0.txCur.id = NONE /\ s0.inSess /\ s0.txQ # <<>> /\ s0.inTerm /\ "start_after_term" \notin Dev
      IN
-     IF waiting THEN Commit(e, [s0 EXCEPT !.pq = TRUE])
+     IF waiting THEN Commit(e, [s0 EXCEPT !.pq = ("busy_wait_abstracted" \notin Dev)])
      ELSE IF nothing THEN Commit(e, s0)
      ELSE IF refuse THEN
         \* flush the queue as recv_sess_term does
@@ -261,7 +261,8 @@ OnMessage(s, e, m) ==
   ELSE
   CASE m.t = "INIT" ->
          LET s1 == IF e = "P" THEN Enc(s, MInit(e)) ELSE s
-         IN [s1 EXCEPT !.inSess = TRUE, !.segSize = Min(SegInit[e], m.mru)]
+         IN [s1 EXCEPT !.inSess = TRUE, !.segSize = Min(SegInit[e], m.mru),
+                       !.pq = (@ \/ "busy_wait_abstracted" \in Dev)]
     [] m.t \in {"SEG", "ACK", "REFUSE", "TERM"} /\ ~s.inSess -> Enc(s, MReject(TypeCode(m), 3))
     [] m.t = "TERM" ->
          LET s0 == [s EXCEPT !.gotTerm = TRUE]
@@ -369,6 +370,12 @@ Init ==
   /\ pend = <<>> /\ allOk = TRUE
 
 Spec == Init /\ [][Next]_vars
+\* Callbacks are enabled only between callbacks (Idle), so a callback that re-arms itself for ever (the code's
+\* _process_queue while it waits for the session: a busy wait at idle priority) gives cycles on which no other
+\* source is *continuously* enabled, and weak fairness forces nothing.  Strong fairness is what the GLib loop
+\* provides, but TLC's SF check did not finish on 14 k states in 15 min; the liveness configuration therefore
+\* abstracts the busy wait ("busy_wait_abstracted": the source is re-armed by SESS_INIT instead, which is
+\* observably the same) and the remaining callback graph has no cycles, so weak fairness suffices.
 FairSpec == Spec /\ WF_vars(Drain)
                  /\ \A e \in Ends : WF_vars(Start(e)) /\ WF_vars(ProcessQueue(e)) /\ WF_vars(NetRecv(e))
                                     /\ WF_vars(PeerEof(e)) /\ WF_vars(TxPump(e, "all")) /\ WF_vars(UserPop(e))
@@ -393,7 +400,10 @@ Dbg == [failed |-> IF Quiescent THEN FailedFinal ELSE {}, ph |-> ph, pend |-> [i
         closed |-> closed, termReq |-> termReq, queued |-> queued, sfin |-> sfin, rfin |-> rfin, allOk |-> allOk]
 
 \* liveness (FairSpec): a run always reaches a state in which nothing more can happen
-Terminates == <>[]Quiescent
+\* the event loop runs out of work (what users might still do is not work the loop owes)
+LoopIdle == pend = <<>> /\ \A e \in Ends : ~ENABLED Start(e) /\ ~ENABLED ProcessQueue(e) /\ ~ENABLED NetRecv(e)
+                                          /\ ~ENABLED PeerEof(e) /\ ~ENABLED TxPump(e, "all")
+Terminates == <>[]LoopIdle
 \* C09: once termination has been requested both endpoints end closed
 TermLive == (termReq["A"] \/ termReq["P"]) ~> (~ph["A"].open /\ ~ph["P"].open)
 \* C01: without termination/close every queued bundle is eventually held by the peer
